@@ -54,10 +54,11 @@ type fcWorld struct {
 	names []string
 }
 
-const fcMaxLent = 3
+// fcMaxLent bounds the handles lent at once (3 quick, 4 thorough).
+var fcMaxLent = 3
 
 func fcReplay(hist []fcOp) (w *fcWorld, v *Violation) {
-	w = &fcWorld{fs: vos.NewMemFS(), names: []string{"/f/a", "/f/b", "/f/c"}}
+	w = &fcWorld{fs: vos.NewMemFS(), names: []string{"/f/a", "/f/b", "/f/c", "/f/d"}}
 	w.fs.MkdirRaw("/f")
 	for _, n := range w.names {
 		w.fs.WriteFileRaw(n, []byte("content of "+n))
@@ -222,6 +223,9 @@ func runC14(c *Collector) {
 	maxStates := 400000
 	if c.job.Tier != "quick" {
 		caps = []int{0, 1, 2, 3, 4}
+		names = 4
+		fcMaxLent = 4
+		maxStates = 3000000
 	}
 	c.res.Engine = "B (explicit-state BFS over the real FileCache on MemFS; successor = replay of the shortest history + 1 op on a fresh cache; canonical states; search to fixpoint)"
 	c.res.Rule = "states = exact cache state (capacity, LRU order with handle ids renumbered by first occurrence, reference counts, removed map, lent list); ops Open/Close(matched)/Remove/Clear/SetCacheSize from every New(capacity); invariants after every op: lent handles open and readable, refs = lent count >= 0, every descriptor not lent/cached/pending is closed exactly once, open descriptors <= capacity + lent, no panic; non-trivial = transitions taken with at least one handle lent"
@@ -293,7 +297,7 @@ type fcProg []fcOp // ops of one thread; "close" closes the thread's oldest open
 
 func execFileCache(t *testing.T, sc *ConcScenario, choose chooser) *execResult {
 	res := &execResult{}
-	w := &fcWorld{fs: vos.NewMemFS(), names: []string{"/f/a", "/f/b", "/f/c"}}
+	w := &fcWorld{fs: vos.NewMemFS(), names: []string{"/f/a", "/f/b", "/f/c", "/f/d"}}
 	w.fs.MkdirRaw("/f")
 	for _, n := range w.names {
 		w.fs.WriteFileRaw(n, []byte("content of "+n))
